@@ -171,6 +171,13 @@ def gen_curve(rng, g, n):
             elif rel == 3:
                 u1 = (-u0) % (1 << 64); cl.add("mul64mu:opposite-halves")
             v, vc = c04.hostile_scalar(rng, g)
+            if rel in (4, 5):
+                # tiny multipliers with a sparse v: whole digit columns are zero in every operand but one
+                u0, u1 = rng.choice([0, 1, 2, 3, 32]), rng.choice([0, 0, 1, 2, 32])
+                v = ((1 << rng.randrange(0, nn.bit_length() - 1)) + rng.choice([0, 1, 3, 32, 1 << rng.randrange(0, 64)])) % nn
+                if rng.randrange(3) == 0:
+                    v = (v + (1 << rng.randrange(0, nn.bit_length() - 1))) % nn
+                cl.add("mul64mu:sparse-v-tiny-u")
             P = g.rand_point(rng)
             d = pdesc(g, P, rng)
             mu = ref_gls.GLS254.mu
@@ -288,7 +295,7 @@ def main(argv):
         for c in ("ed25519", "ed448", "p256", "secp256k1", "ristretto255", "decaf448"):
             req += [c + ":vh:true", c + ":vh:false", c + ":vh:k=rational", c + ":vh:s-off-by-one", c + ":vh:k=naf-carry-out-of-top-window", c + ":vh:k=norm-at-power-of-two"]
         req += ["ed25519:vh:torsion-A-R", "ed448:vh:torsion-A-R", "jq255e:mul128:u>=2^128-64", "jq255s:mul128:u>=2^128-64",
-                "gls254:mul64mu:extreme-half", "gls254:mul64mu:equal-halves", "gls254:mul64mu:u0=0", "gls254:mamv:u=endo-half0-zero", "jq255e:mamv:u=endo-half0-zero",
+                "gls254:mul64mu:extreme-half", "gls254:mul64mu:equal-halves", "gls254:mul64mu:sparse-v-tiny-u", "gls254:mul64mu:u0=0", "gls254:mamv:u=endo-half0-zero", "jq255e:mamv:u=endo-half0-zero",
                 "secp256k1:mamv:u=endo-half0-zero", "gls254:mamv:u=endo-equal-halves"]
         rep.require(*req)
     except Inconclusive as e:
